@@ -28,7 +28,10 @@ def _expected(call, events):
     def payload(l): return l.split(",", 1)[1] if "," in l else ""
     try:
         if m == "command": return True
-        if m == "query": return payload(lines[0]) if "," in lines[0] else lines[0][len(call[1].strip()[:2]):]
+        if m == "query":
+            t = call[1].strip(); nm = t[0] if (len(t) == 1 or t[1] == ",") else t[:2]
+            rest = lines[0].strip()[len(nm):]                  # the reply with the name ...
+            return rest[1:] if rest.startswith(",") else rest  # ... and one separating comma removed
         if m == "status": return int(payload(lines[0]), 16)
         if m == "var_read": return int(payload(lines[0]))
         if m == "var_write": return True
@@ -73,7 +76,9 @@ def generate(rng, tier):
         call = ("query" if isq else "command", text)
         nm = body[0] if (len(body) == 1 or body[1] == ",") else body[:2]
         k = rng.random()
-        reply = nm + ("," + str(rng.randint(0, 99)) if isq and rng.random() < 0.8 else "")
+        # payloads: numbers, and texts that begin with the separator or with the letters of the request name (kept verbatim by a correct client)
+        pay = rng.choice([str(rng.randint(0, 99))] * 4 + [",odd", ",,7", nm, nm + "," + nm, ",", "a,b", ",,,x", nm[0] * 3, "x" + nm])
+        reply = nm + ("," + pay if isq and rng.random() < 0.85 else (pay if isq and rng.random() < 0.3 and not pay[0].isdigit() and pay[0] != "," else ""))
         exp = "SKIP"
         if k < 0.35:
             ne = rng.choice([0, 1, 24, 25, 26, 27]); ev = ["E"] + ["E"] * ne + [("L", reply)]; fam = "empties%d" % ne
